@@ -290,6 +290,23 @@ def sysv_hash_form(F, rep, rule="hash-function"):
         return any(x is L and m.op == "const" and m.args[1] == 0xf0000000 for x, m in _two(t, "BitAnd"))
     for X, NG in _two(step, "BitAnd"):
         if NG.op == "un" and NG.args[0] == "Not":
+            # the listing's `if g != 0 { h ^= g >> 24 }`: the merge of L and L ^ (g >> 24) is L ^ (g >> 24) (for g == 0 the xor is by 0)
+            if X.op == "phi" and X in an.phi_ops:
+                vals_ = list({id(v): v for v in an.phi_ops[X].values()}.values())
+                if len(vals_) == 2:
+                    def _tests_g(L_):
+                        # the merge is decided by `g != 0` / `g == 0` (any other test would keep L for some non-zero g)
+                        for d_ in an.switches.values():
+                            if _is_g(d_, L_):
+                                return True
+                            if d_.op == "bin" and d_.args[0] in ("Ne", "Eq"):
+                                for x_, z_ in ((d_.args[1], d_.args[2]), (d_.args[2], d_.args[1])):
+                                    if z_.op == "const" and z_.args[1] == 0 and _is_g(x_, L_):
+                                        return True
+                        return False
+                    for a_, b_ in ((vals_[0], vals_[1]), (vals_[1], vals_[0])):
+                        if any(L_ is a_ for L_, _ in _two(b_, "BitXor")) and _tests_g(a_):
+                            X = b_
             for L, S in _two(X, "BitXor"):
                 if linear_form(L, {h: "h", byte: "c"}) == {"h": 16, "c": 1} and _is_g(NG.args[1], L) and S.op == "bin" and S.args[0] == "Shr" \
                         and S.args[2].op == "const" and S.args[2].args[1] == 24 and _is_g(S.args[1], L):
